@@ -667,6 +667,8 @@ void World::opAssign(const Step &s)
     EdgeSlot &T = *edges[s.a[0] % edges.size()];
     EdgeSlot &S = *edges[s.a[1] % edges.size()];
     desc << en(T) << " := " << en(S);
+    if (!checkEdge(T, "I1", cur_family, "edge about to be overwritten")) return;
+    if (!checkEdge(S, "I1", cur_family, "assignment source")) return;
     *T.e = *S.e;
     T.forest = S.forest;
     T.tab = S.tab;
@@ -680,6 +682,7 @@ void World::opRelease(const Step &s)
     cur_family = "edges";
     if (edges.empty()) { note(OC_SKIP); return; }
     desc << "release " << en(*edges[s.a[0] % edges.size()]);
+    if (!checkEdge(*edges[s.a[0] % edges.size()], "I1", cur_family, "edge about to be released")) return;
     dropEdge(s.a[0] % edges.size());
     note(OC_OK);
 }
@@ -694,7 +697,9 @@ void World::opDrain(const Step &s)
     desc << "drain " << fn(fi) << " (release every edge, clear caches mode " << s.a[1] % 3 << ")";
     for (size_t i = edges.size(); i; ) {
         --i;
-        if (edges[i]->forest == fi) dropEdge(i);
+        if (edges[i]->forest != fi) continue;
+        if (!checkEdge(*edges[i], "I1", cur_family, "edge about to be released")) return;
+        dropEdge(i);
     }
     stats.drains++;
     stats.fired["drain"]++;
